@@ -96,6 +96,7 @@ func checkC17(c *Ctx) {
 		guidFile[fn] = true
 		// text -> hex decode (dashes removed) -> BytesToGUID
 		ok, det := false, "result does not derive from BytesToGUID(hex.DecodeString(text))"
+		byHand := false
 		dv := c.deepViewOf(fn, 3)
 		dv.stopAt = map[string]bool{utilPkg + ".BytesToGUID": true}
 		for _, r := range ir.Returns(fn) {
@@ -110,9 +111,15 @@ func checkC17(c *Ctx) {
 			sl := dv.sliceDeep(call.Call.Args[0], res.fr)
 			if len(ir.CallsIn(sl, "encoding/hex.DecodeString", "encoding/hex.Decode")) > 0 && sl[fn.Params[0]] {
 				ok = true
+			} else if sl[fn.Params[0]] {
+				byHand = true
 			}
 		}
-		c.R.Check(ok, "G6.pair", name(fn), "text->GUID", c.Pos(fn.Pos()), "text is hex-decoded (case-insensitive) and handed to the big-endian byte decoder", det)
+		if !ok && byHand && det == "result does not derive from BytesToGUID(hex.DecodeString(text))" {
+			c.R.Infof("G6.pair", name(fn), "text->GUID", c.Pos(fn.Pos()), "not decided for this shape: the bytes handed to the byte decoder are computed from the text without encoding/hex (a hand-written digit loop is not evaluated)")
+		} else {
+			c.R.Check(ok, "G6.pair", name(fn), "text->GUID", c.Pos(fn.Pos()), "text is hex-decoded (case-insensitive) and handed to the big-endian byte decoder", det)
+		}
 	}
 	for _, spec := range []string{"efi/util.(*EFIGUID).Bytes", "efi/util.(*EFIGUID).Format"} {
 		// the text family itself may use the text-order bytes
@@ -229,6 +236,20 @@ func checkC17(c *Ctx) {
 					}
 					return ir.AccessPath(cmp.X) != ir.AccessPath(cmp.Y)
 				}})
+		}
+		// a byte-by-byte loop over Data4 is not followed by the path engine (the loop
+		// exit is reachable in the graph without an iteration): that field is not decided
+		elementwise := false
+		instrsOf(fn, func(i ssa.Instruction) {
+			if ia, ok := i.(*ssa.IndexAddr); ok && ir.FieldID(ia.X) == utilPkg+".EFIGUID.Data4" {
+				if _, isK := ir.ConstInt(ia.Index); !isK && inLoop(fn, ia.Block()) {
+					elementwise = true
+				}
+			}
+		})
+		if elementwise {
+			facts = facts[:3]
+			c.R.Infof("G6.cmp", name(fn), "eq-Data4", c.Pos(fn.Pos()), "not decided for this shape: Data4 is compared element by element in a loop")
 		}
 		c.guidCmp(e, fn, facts)
 	}
@@ -384,6 +405,13 @@ func (c *Ctx) ruleUTF16() {
 					continue
 				}
 				if nw, isNW := dv.resolveAll(recv, di.fr).v.(*ssa.Call); isNW && ir.CallID(nw) == "golang.org/x/text/transform.NewWriter" {
+					// one Write in a loop over a literal list of parts: one write per part
+					if alts := dv.alternatives(data, di.fr); len(alts) > 1 && inLoop(di.fr.fn, call.Block()) {
+						for _, alt := range alts {
+							writes = append(writes, twrite{di, alt.v})
+						}
+						continue
+					}
 					writes = append(writes, twrite{di, data})
 				}
 			}
@@ -395,11 +423,11 @@ func (c *Ctx) ruleUTF16() {
 					if !dv.sliceDeep(writes[0].data, writes[0].di.fr)[fn.Params[0]] {
 						ok, det = false, "the first write is not the string parameter"
 					}
-					if !constBytesEqual(writes[1].data, "\x00") {
+					if !constBytesEqual(writes[1].data, "\x00") && !constStringEqual(writes[1].data, "\x00") {
 						ok, det = false, "the second write is not the single NUL terminator"
 					}
 					w0, w1 := writes[0].di, writes[1].di
-					if w0.fr == w1.fr && !precedesInCFG(w0.fr.fn, w0.i, w1.i) || w0.fr != w1.fr && w0.seq > w1.seq {
+					if w0.i != w1.i && (w0.fr == w1.fr && !precedesInCFG(w0.fr.fn, w0.i, w1.i) || w0.fr != w1.fr && w0.seq > w1.seq) {
 						ok, det = false, "the terminator is not written after the string"
 					}
 				}
@@ -505,6 +533,25 @@ func (c *Ctx) ruleUTF16() {
 			n++
 			src := dv.objectOf(call.Call.Args[1], di.fr)
 			fromRead := false
+			if elems, isLit := variadicElems(call.Call.Args[1]); isLit && len(elems) > 0 {
+				// append(ret, buf[0], buf[1]): every element is a byte of the read buffer
+				all := true
+				for _, e := range elems {
+					ok1 := false
+					if ld, isLd := ir.StripConv(e).(*ssa.UnOp); isLd && ld.Op == token.MUL {
+						if ia, isIA := ld.X.(*ssa.IndexAddr); isIA {
+							eo := dv.objectOf(ia.X, di.fr)
+							for _, b := range readBufs {
+								if eo.same(b) || ir.RootOf(eo.v) == ir.RootOf(b.v) && eo.fr == b.fr {
+									ok1 = true
+								}
+							}
+						}
+					}
+					all = all && ok1
+				}
+				fromRead = all
+			}
 			for _, b := range readBufs {
 				if src.same(b) || ir.RootOf(src.v) == ir.RootOf(b.v) && src.fr == b.fr {
 					fromRead = true
@@ -960,4 +1007,9 @@ func (c *Ctx) judgeStdUTF16Encode(fn *ssa.Function, dv *deepView, enc dinstr, wh
 	default:
 		c.R.Okf("A-u.utf16", name(fn), "encode", c.Pos(fn.Pos()), what)
 	}
+}
+
+func constStringEqual(v ssa.Value, s string) bool {
+	k, ok := ir.StripConv(v).(*ssa.Const)
+	return ok && k.Value != nil && k.Value.Kind() == constant.String && constant.StringVal(k.Value) == s
 }
